@@ -75,3 +75,24 @@ M("c08-ahead-purged", "C08", "flexstack/geonet/location_table.py",
 M("c08-guc-neighbour", "C08", "flexstack/geonet/location_table.py",
   "        # IS_NEIGHBOUR = FALSE only for new entry (NOTE 2: unchanged otherwise)\n        if is_new_entry:\n            entry.is_neighbour = False",
   "        entry.is_neighbour = not is_new_entry", "GUC marks an existing entry as neighbour")
+
+# ---------------------------------------------------------------- C07
+M("c07-rect-max", "C07", "flexstack/geonet/router.py",
+  "return min(1 - (x_distance / area.a) ** 2, 1 - (y_distance / area.b) ** 2)", "return max(1 - (x_distance / area.a) ** 2, 1 - (y_distance / area.b) ** 2)", "rectangle uses max instead of min")
+M("c07-rot-sign", "C07", "flexstack/geonet/router.py",
+  "x_distance * math.cos(theta) - y_distance * math.sin(theta),", "x_distance * math.cos(theta) + y_distance * math.sin(theta),", "rotation direction reversed")
+M("c07-border", "C07", "flexstack/geonet/router.py",
+  "            # Step 9: inside or at border (F ≥ 0) → deliver to upper entity and STOP\n            if area_f >= 0:", "            # Step 9\n            if area_f >= -0.5:", "GAC delivered in a ring outside the border")
+M("c07-gac-forward", "C07", "flexstack/geonet/router.py",
+  "            if so_entry is not None and so_entry.position_vector.pai:\n                f_se = self.gn_geometric_function_f(", "            if so_entry is not None and not so_entry.position_vector.pai:\n                f_se = self.gn_geometric_function_f(", "GAC Annex D sender check uses inverted PAI")
+M("c07-area-size", "C07", "flexstack/geonet/router.py",
+  "        return 4.0 * area.a * area.b", "        return area.a * area.b", "rectangle size a x b instead of 2a x 2b")
+M("c07-annexd", "C07", "flexstack/geonet/router.py",
+  "            if f_se >= 0:\n                # Sender was inside/at border → discard to prevent area→non-area transition\n                return GNForwardingAlgorithmResponse.DISCARTED",
+  "            if f_se < 0:\n                return GNForwardingAlgorithmResponse.DISCARTED", "Annex D discards when the sender is outside")
+M("c07-ellipse-b", "C07", "flexstack/geonet/router.py",
+  "            return 1 - (x_distance / area.a) ** 2 - (y_distance / area.b) ** 2\n        if area_type in (GeoBroadcastHST.GEOBROADCAST_RECT",
+  "            return 1 - (x_distance / area.a) ** 2 - (y_distance / area.a) ** 2\n        if area_type in (GeoBroadcastHST.GEOBROADCAST_RECT", "ellipse evaluated as circle of radius a")
+M("c07-fwd-size", "C07", "flexstack/geonet/router.py",
+  "            if Router._compute_area_size_m2(cast(Union[GeoBroadcastHST, GeoAnycastHST], common_header.hst), area) > self.mib.itsGnMaxGeoAreaSize * 1_000_000:\n                return indication",
+  "            if False:\n                return indication", "GBC forwarder ignores area size limit")
